@@ -33,6 +33,10 @@ WEIGHTS = {'pr_event': 22, 'commit_event': 18, 'advance': 14,
            'report': 2, 'manual': 0, 'move_dst': 1, 'push_src': 4}
 
 
+TITLES = ('title', 'Follow-up of PR 1: second fix', 'Bump to 2.0',
+          'fix 3 things (see #2)', 'TEST-1 fix')
+
+
 def monitors():
     return [M.C19OneToOne(), M.WOwnership('C19')]
 
@@ -113,6 +117,11 @@ def body(data, hist):
                           {'op': 'pr_event', 'pr': kid_}]
                 hist.flags.add('c19_children_by_option_macro')
         for step in steps_:
+            if step['op'] == 'open_pr' and 'title' not in step:
+                # titles are free text: numbers in them (another pull
+                # request's id, a version) must not confuse the link between
+                # an integration pull request and its parent
+                step['title'] = TITLES[len(hist.steps) % len(TITLES)]
             w = hist.world
             twin = None
             if step['op'] == 'pr_event' and step['pr'] not in w.prs:
